@@ -29,7 +29,7 @@ from . import smt
 from .interp import NOTSET, Interp, World, explore
 from .loader import Loader, all_functions
 from .refine import Result
-from .values import SV, BoundMethod, Closure, Native, Obj, Opaque, PathEnd, PyExc, Unsupported
+from .values import SV, BoundMethod, Closure, ListObj, Native, Obj, Opaque, PathEnd, PyExc, Unsupported
 from .catchsched import conj, same
 
 UFILE = "reactivex/observable/using.py"
@@ -262,11 +262,22 @@ class ResHarness:
         e_flag = env.lookup_env("was_invoked") if env is not None else None
         if e_flag is None:
             raise Unsupported("do_finally: no `was_invoked` cell (drift)")
-        flag = e_flag.vars["was_invoked"]
+        # the cell is a one-element list or a plain closure variable (`nonlocal`)
+        as_list = isinstance(e_flag.vars["was_invoked"], ListObj) and not e_flag.vars["was_invoked"].symbolic and len(e_flag.vars["was_invoked"].items) == 1
+
+        def flag_set(v):
+            if as_list:
+                e_flag.vars["was_invoked"].items[0] = v
+            else:
+                e_flag.vars["was_invoked"] = v
+
+        def flag_get():
+            cur = e_flag.vars["was_invoked"]
+            return cur.items[0] if (isinstance(cur, ListObj) and not cur.symbolic and len(cur.items) == 1) else cur
         inner = subs[0][4][1]
         which = ctx.choose(3, "event")  # completed / error / dispose
         ran_before = ctx.choose(2, "the action already ran") == 1
-        flag.items[0] = ran_before
+        flag_set(ran_before)
         w.log.clear()
         if which == 0:
             it.call(on_completed, [], {})
@@ -280,7 +291,7 @@ class ResHarness:
             term = None
         calls = self.ev("call", action)
         self.rec(ctx, uid + f"/{['on_completed', 'on_error', 'dispose'][which]}/runs-the-action-iff-it-has-not-run-yet", len(calls) == (0 if ran_before else 1))
-        self.rec(ctx, uid + f"/{['on_completed', 'on_error', 'dispose'][which]}/marks-the-action-as-run", flag.items[0] is True)
+        self.rec(ctx, uid + f"/{['on_completed', 'on_error', 'dispose'][which]}/marks-the-action-as-run", flag_get() is True)
         if term is not None:
             ds = self.ev("down")
             okd = len(ds) == 1 and ds[0][1] == term[0] and (term[1] is None or same(ds[0][2][0], term[1]))
